@@ -26,3 +26,5 @@ mod c20;
 mod c21;
 #[cfg(all(kani, feature = "c09"))]
 mod c09;
+#[cfg(all(kani, feature = "c05"))]
+mod c05;
